@@ -452,3 +452,13 @@ def m7(ctx):
 
 
 RULES.append(m7)
+
+
+@rule("M8", doc="the e-nodes the matcher is shown (enodes_applied) are faithful copies: every occurrence of a slot that is not a class slot gets the SAME fresh name, covered slots follow the invocation simultaneously (C03.H2 / H6) — otherwise the body of a two-binder node is detached from its binders and a represented instance does not match")
+def m8(ctx):
+    from . import c03
+    c03.h2(ctx)
+    c03.h6(ctx)
+
+
+RULES.append(m8)
